@@ -16,7 +16,7 @@ RULE = (
     "frozen tables: attribute name per field, stripped text, ISO-8601 creation time, ignored "
     "fields absent, plus the reference-document link; equality of the complete root attrs dict "
     "read through open_alos2. Non-trivial: >= 1 file pointer record."
-    " Stage 'in-place-pairs': two volume directories at the same root, one after the other, both judged. Three cases in seven inject a transient I/O error (the 1st, 2nd or 3rd read of the volume directory file fails once with OSError): the open may fail with that OSError, but a tree that is returned - then, and by the next open - carries exactly the fields of the file."
+    " Stage 'in-place-pairs': two volume directories at the same root, one after the other, both judged. Three cases in seven inject a transient I/O error (the 1st, 2nd or 3rd read of the volume directory file fails once with OSError): the open may fail with that OSError, but a tree that is returned - then, and by the next open - carries exactly the fields of the file. Half of the other cases judge the tree returned by an open that writes the image index cache, or a tree served from that cache."
 )
 ASSUMPTIONS = [
     "layout/volume_directory.json + layout/exposure_volume.json (frozen) are the reference",
@@ -41,6 +41,9 @@ def cases(draw):
         "trailing": draw(st.sampled_from([None, None, {"volume": "blank"}, {"volume": "nul"}, {"volume": "text"}, {"volume": "random"}])),
         # the n-th read of the volume directory file fails once with OSError (None: no fault)
         "io_error": draw(st.sampled_from([None, None, None, None, 1, 2, 3])),
+        # judged tree: plain uncached open / returned by the open that writes the image index
+        # cache / served from that cache (the root attributes come from the volume directory either way)
+        "open_mode": draw(st.sampled_from(["plain", "plain", "creating", "cached"])),
     }
 
 
@@ -51,7 +54,7 @@ def plan(tier):
 
 
 def classify(case):
-    return case["n_file_pointers"] >= 1, [f"pointers={min(case['n_file_pointers'], 3)}+" if case["n_file_pointers"] >= 3 else f"pointers={case['n_file_pointers']}", f"policy={case['policy']}", f"io_error={case.get('io_error')}"]
+    return case["n_file_pointers"] >= 1, [f"pointers={min(case['n_file_pointers'], 3)}+" if case["n_file_pointers"] >= 3 else f"pointers={case['n_file_pointers']}", f"policy={case['policy']}", f"io_error={case.get('io_error')}", f"open_mode={case.get('open_mode', 'plain')}"]
 
 
 def run_case(case):
@@ -92,12 +95,15 @@ def run_case(case):
                     d.setdefault("context", {})["during"] = "the open after the transient error"
                     out.append(d)
         return out
-    with harness.Materialised(files, "memory") as prod:
-        tree, err = harness.guard(harness.open_tree, prod.url, use_cache=False)
+    mode = case.get("open_mode", "plain")
+    with common.open_in_mode(files, info["names"]["sar_imagery"], mode) as (tree, err):
         if err is not None:
-            return [harness.disc("exception", "open_alos2", "a tree", harness.exc_text(err))]
+            return [harness.disc("exception", f"open_alos2 ({mode})", "a tree", harness.exc_text(err))]
         flat = {f"/@{k}": v for k, v in tree.attrs.items()}
-    return model.check_root_attrs(info["volume_leaves"], flat, harness.disc)
+    out = model.check_root_attrs(info["volume_leaves"], flat, harness.disc)
+    for d in out:
+        d.setdefault("context", {})["open_mode"] = mode
+    return out
 
 
 LEVEL_TEXT = (
